@@ -137,8 +137,12 @@ int main(void) {
   REP3(CVP)
 #elif PART == 2 || PART == 3
   static int v0[CAP];
+#ifdef NN   /* element count and mark concrete per query (loop control of the kernels becomes concrete), values symbolic */
+  u64 n = NN, m = MM;
+#else
   u64 n = vp_nd_range(PART == 3 ? 1 : 0, NMAX), m = vp_nd_range(0, NMAX);
   __CPROVER_assume(m <= n);
+#endif
 #define AP(i) if (i < n) { v0[i] = nd_int(); vp_q_append(Q, (u32)v0[i]); }
   REP8(AP)
   vp_q_set_mark(Q, m);
